@@ -91,7 +91,8 @@ def sort_over_sort_case(rng):
         state = g.unary(state, rng.choice(["sel", "calc"])) or state
     state = g.unary(state, "xfer") or state
     old_cols = rng.sample(cols, rng.randint(1, min(2, len(cols))))
-    state = (["sort", state[0], [[["ref", c], rng.random() < 0.5] for c in old_cols], None], state[1], state[2])
+    old_terms = [[["ref", c], rng.random() < 0.5] for c in old_cols]
+    state = (["sort", state[0], old_terms, None], state[1], state[2])
     if rng.random() < 0.3:
         state = g.unary(state, rng.choice(["sel", "calc"])) or state
     e = ["ref", old_cols[0]]
@@ -102,6 +103,12 @@ def sort_over_sort_case(rng):
     terms = [[e, rng.random() < 0.5]]
     if rng.random() < 0.3:
         terms.append([["ref", rng.choice(cols)], rng.random() < 0.5])
+    if rng.random() < 0.35:
+        # the same expression as a term of the existing sort, in the opposite direction (the two
+        # sorts meet - and are merged - in the source engine), optionally after another term
+        flipped = [[list(t[0]), not t[1]] for t in old_terms]
+        rng.shuffle(flipped)
+        terms = ([[["ref", rng.choice(cols)], rng.random() < 0.5]] if rng.random() < 0.3 else []) + flipped[: rng.randint(1, len(flipped))]
     prog, pcols_, eng = state
     return {"leaves": g.leaves, "prog": prog, "cols": sorted(pcols_), "engine": eng,
             "final": {"kind": "sort", "node": ["sort", ["leaf", "__T__"], terms, None]}, "directed": "sort_over_sort"}
